@@ -297,6 +297,7 @@ func runC12(c *Ctx) {
 		}
 	}
 	_ = strings.Contains
+	runC12Exchange(c)
 }
 
 // keptOnlyAcross: in the per-element loop of SetRaw that computes the read key
